@@ -69,6 +69,9 @@ Has(t, w) == \E i \in 1..Len(t) : t[i] = w
 \* a go command the driver accepts (numeric arguments present and numeric)
 GoOK(t) == \A i \in 1..Len(t) : t[i] \in {"depth", "movetime", "wtime", "btime", "movestogo"} => (i < Len(t) /\ ParseNat(t[i+1]) # -1)
 
+\* the number after a keyword of a go command (0 if the keyword is absent)
+ArgOf(t, w) == IF Has(t, w) THEN ParseNat(t[(CHOOSE i \in 1..Len(t) : t[i] = w /\ \A j \in 1..(i-1) : t[j] # w) + 1]) ELSE 0
+
 VARIABLES l,        \* scenario index
           st        \* verdict state of the scenario just judged (kept small)
 vars == <<l, st>>
@@ -76,7 +79,7 @@ vars == <<l, st>>
 Init0 == [game |-> B!NewBoard(Decode(StartFen).pos, 0, 1), nextgame |-> B!NewBoard(Decode(StartFen).pos, 0, 1), lastcmd |-> "", lastline |-> <<>>,
           pending |-> FALSE, cur |-> 0, launched |-> 0, infinite |-> FALSE, stopped |-> FALSE,
           ended |-> {}, moves |-> [k \in {} |-> ""], winners |-> <<>>, asked |-> 0, readyok |-> 0,
-          exited |-> FALSE, mayexit |-> FALSE, fails |-> {}, bookgo |-> FALSE, nbest |-> 0, ngo |-> 0, unsettled |-> FALSE, final |-> FALSE, busy |-> FALSE, curAtCmd |-> -1]
+          exited |-> FALSE, mayexit |-> FALSE, clocks |-> {}, fails |-> {}, bookgo |-> FALSE, nbest |-> 0, ngo |-> 0, unsettled |-> FALSE, final |-> FALSE, busy |-> FALSE, curAtCmd |-> -1]
 
 AddFail(s, name, cond) == IF cond THEN s ELSE [s EXCEPT !.fails = @ \cup {name}]
 
@@ -94,6 +97,9 @@ Step(s, ev, stub) ==
                    !.stopped = IF c = "stop" /\ s.pending THEN TRUE ELSE @,
                    !.asked = IF c = "isready" THEN @ + 1 ELSE @,
                    !.mayexit = IF c = "quit" \/ (c = "position" /\ ~IsPosition(t)) \/ (c = "go" /\ ~GoOK(t)) THEN TRUE ELSE @,
+                   \* the clocks a go command states (milliseconds; a clock that is not given is 0)
+                   !.clocks = IF c = "go" /\ GoOK(t)
+                              THEN @ \cup {<<ArgOf(t, "wtime"), ArgOf(t, "btime")>>} ELSE @,
                    !.bookgo = (c = "go"),
                    !.ngo = IF c = "go" THEN @ + 1 ELSE @]
     [] nm = "uci.inactive.begin" ->
@@ -103,6 +109,11 @@ Step(s, ev, stub) ==
     [] nm = "uci.go.activated" ->
          [s EXCEPT !.pending = TRUE, !.cur = s.launched, !.infinite = Has(s.lastline, "infinite"), !.stopped = FALSE, !.bookgo = FALSE]
     [] nm = "stub.result" -> [s EXCEPT !.moves = (a[1] :> a[3]) @@ @]
+    \* the limits a search derived from its time control (microseconds): the hard limit - when the search is
+    \* stopped at the latest - never exceeds what some go command of this session left the side to move
+    [] nm = "iter.limits" ->
+         AddFail(s, "c15.hard-limit-exceeds-the-clock-given",
+                 \E g \in s.clocks : a[6] <= (IF a[1] = 0 THEN g[1] ELSE g[2]) * 1000)
     [] nm = "iter.exit" -> s
     [] nm = "stub.halted" -> s
     [] nm = "uci.fwd.closed" -> [s EXCEPT !.ended = @ \cup {ev.role}]
@@ -193,7 +204,7 @@ Next ==
      IF e.op = "events"
      THEN LET stub == Tr[l-1].stub
               s == Run(Init0, e.events, 1, stub)
-              f == { x \in s.fails : (Want("C04") /\ SubSeq(x, 1, 3) = "c04") \/ (Want("C16") /\ SubSeq(x, 1, 3) = "c16") \/ SubSeq(x, 1, 3) = "har" }
+              f == { x \in s.fails : (Want("C04") /\ SubSeq(x, 1, 3) = "c04") \/ (Want("C16") /\ SubSeq(x, 1, 3) = "c16") \/ (Want("C15") /\ SubSeq(x, 1, 3) = "c15") \/ SubSeq(x, 1, 3) = "har" }
           IN /\ (f # {} => PrintT("FAIL|" \o ToString(l) \o "|" \o ToString(f)))
              /\ PrintT("NOTE|scenario|go=" \o ToString(s.ngo) \o "|best=" \o ToString(s.nbest))
              /\ (s.unsettled => PrintT("NOTE|unsettled|" \o ToString(l)))
